@@ -7,7 +7,7 @@ import vlib
 
 ARITH = "Trace_MLDSAArith"
 ALGO = "Trace_MLDSA"
-ALGO_EVS = {"keygen", "sign", "signmu", "verify", "verifymu", "pverify", "signed", "prehash", "composite", "note"}
+ALGO_EVS = {"keygen", "sign", "signmu", "verify", "verifymu", "pverify", "signed", "signfail", "prehash", "composite", "note"}
 
 
 # ----------------------------------------------------------------------------------------- negative controls
@@ -132,33 +132,30 @@ def _validate_heavy(ctx, module, trace, ways=16, stage=None):
     return sorted(mism, key=lambda m: m["index"]), len(lines)
 
 
-def _run_drivers(ctx, drv):
-    """Run the driver stages concurrently; returns (arith trace, algo trace)."""
+def _driver(ctx, drv, name, args, timeout):
+    out = os.path.join(ctx.scratch, "c10.%s.ndjson" % name)
+    r = ctx.run([drv, "-out", out] + args, timeout=timeout)
+    ctx.log("driver %s: %s" % (name, r.stdout.strip()))
+    return out
+
+
+def _arith_trace(ctx, drv):
+    """Run the scalar/binary/polynomial driver stages concurrently and merge their events."""
     sparts = 8 if ctx.thorough else 2
     jobs = [("scalar%d" % i, ["-stage", "scalar", "-part", str(i), "-parts", str(sparts)]) for i in range(sparts)]
-    jobs += [("binary", ["-stage", "binary"]), ("poly", ["-stage", "poly"]), ("algo", ["-stage", "algo"])]
-
-    def work(job):
-        name, args = job
-        out = os.path.join(ctx.scratch, "c10.%s.ndjson" % name)
-        r = ctx.run([drv, "-out", out] + args, timeout=2400)
-        return name, out, r.stdout.strip()
-
-    outs = {}
+    jobs += [("binary", ["-stage", "binary"]), ("poly", ["-stage", "poly"])]
     with cf.ThreadPoolExecutor(max_workers=len(jobs)) as ex:
-        for name, out, msg in ex.map(work, jobs):
-            outs[name] = out
-            ctx.log("driver %s: %s" % (name, msg))
-    arith = os.path.join(ctx.scratch, "c10.arith.ndjson")
+        outs = list(ex.map(lambda j: _driver(ctx, drv, j[0], j[1], 1800), jobs))
     lines = []
-    for name in ["poly", "binary"] + ["scalar%d" % i for i in range(sparts)]:
-        lines += [x for x in open(outs[name]).read().splitlines() if x]
+    for o in outs:
+        lines += [x for x in open(o).read().splitlines() if x]
     # events are independent; a seeded shuffle gives every contiguous shard the same mix of cheap and expensive ones
     import random
     random.Random(ctx.seed).shuffle(lines)
+    arith = os.path.join(ctx.scratch, "c10.arith.ndjson")
     with open(arith, "w") as f:
         f.write("\n".join(lines) + "\n")
-    return arith, outs["algo"]
+    return arith
 
 
 EXPECT = {"crafted:z=bound-1": True, "crafted:ones=omega": True, "crafted:ones=max-1": True, "crafted:ones=0..few": True,
@@ -225,27 +222,34 @@ def run(ctx):
         _report(ctx, mism)
         return
 
-    arith, algo = _run_drivers(ctx, drv)
-
     def stage_m():   # (M) the reference against the standard's own lemmas
         ctx.model_check("MC_MLDSAArith", cfg="MC_MLDSAArith_full" if ctx.thorough else "MC_MLDSAArith", must_cover=False,
                         workers=1, heap="6g" if ctx.thorough else "3g", timeout=2400)
 
     def stage_arith():   # (T) scalar / polynomial / packing / sampling layers
+        arith = _arith_trace(ctx, drv)
         mm, n = ctx.validate_events(ARITH, arith, shards=16, timeout=2400)
         ctx.log("arith layers: %d events validated, %d mismatches" % (n, len(mm)))
-        return mm, n
+        return arith, mm, n
 
     def stage_algo():   # (T) algorithm layer
+        algo = _driver(ctx, drv, "algo", ["-stage", "algo"], 2400 if ctx.thorough else 900)
         mm, n = _validate_heavy(ctx, ALGO, algo)
         ctx.log("algorithm layer: %d events validated, %d mismatches" % (n, len(mm)))
-        return mm, n
+        return algo, mm, n
 
     with cf.ThreadPoolExecutor(max_workers=3) as ex:
         fm, fa, fg = ex.submit(stage_m), ex.submit(stage_arith), ex.submit(stage_algo)
+        arith, mism_a, n_a = fa.result()
+        _report(ctx, mism_a)
+        try:
+            algo, mism, n = fg.result()
+        except vlib.Infra:
+            if ctx.violations:      # the lower layers already contradict the specification: report that
+                ctx.log("algorithm-layer stage did not complete; reporting the violations of the lower layers")
+                return
+            raise
         fm.result()
-        mism_a, n_a = fa.result()
-        mism, n = fg.result()
 
     ctx.cov["traces_validated_against_impl"] += 2
     ctx.cov["arith_events"] = n_a
@@ -257,7 +261,6 @@ def run(ctx):
     ctx.cov["scalar_function_points_checked"] = pts
     for k in (3, len(lines) // 3, len(lines) - 2):
         ctx.sample(json.loads(lines[k]))
-    _report(ctx, mism_a)
     arith_bad = bool(mism_a)
 
     ctx.cov["algo_events"] = n
